@@ -19,7 +19,8 @@ func init() {
 			"R4 every listed import must match (loop covers all, a failed import returns false; ok-discipline); R5 a fake package clause is ignored: pgo.Parse clears Package exactly when the first augmentation is a FakePackage; " +
 			"R6 imports are looked up by unquoted path over all of file.Imports, and the lookup is a pure function of the file (no package-level state anywhere in the matching code). " +
 			"R7 the guards reach the matcher — compileFile builds the FileMatcher's Package from file.Package and its Imports from compileImports(file.Imports) of the very pattern file it compiles, compileChange compiles the matcher from Patch.Minus, pgo.Parse fills Package/Imports from what go/parser read, and no other code constructs a pgo.File without copying both guard fields or overwrites them afterwards. " +
-			"NOT decided: files importing one path twice in different forms (first spec wins); dot/blank forms are handled by the generic name matcher (covered by C01's rules).",
+			"NOT decided: files importing one path twice in different forms (first spec wins); dot/blank forms are handled by the generic name matcher (covered by C01's rules)." +
+			" R9 the guards never see a half-applied change.",
 		Trusted:     commonTrusted,
 		Assumptions: commonAssumptions,
 	})
